@@ -73,11 +73,12 @@ PLAN = {
     },
     "C06": {
         "level": "fault_enumeration",
-        "rule": "sequential part: lifetimes with N in 0..6, 0..N+2 matching calls interleaved with 0-3 non-matching calls, through 4 fake! sites (with/without when, unit, assign+when), exit by drop or injected panic; concurrent part (engine T): the k calls split over 1-16 threads with every fetch_add/load a scheduling point, and every counted arm of the macro (generated from the source at check time) under exactly-N calls from 2-4 threads; distinct = (site, N, matching, rejected, exit path) tuples",
+        "rule": "sequential part: lifetimes with N in 0..6, 0..N+2 matching calls interleaved with 0-3 non-matching calls, through 4 fake! sites (with/without when, unit, assign+when), exit by drop or injected panic; concurrent part (engine T): the k calls split over 1-16 threads with every fetch_add/load a scheduling point, and every counted arm of the macro (generated from the source at check time) under exactly-N calls from 2-4 threads, and 2-4 threads whose lifetimes all go through one shared site (the scope-exit verdict of each must be about its own calls: it is given while the injector is still held); distinct = (site, N, matching, rejected, exit path) tuples",
         "assumptions": [A_N, A_T],
         "parts": [n_part("N-sequential-counting", "C06", 1600, 160000, selftest=64, extra_args=["--family", "count"]),
                   t_part("T-concurrent-counting", "count", "C06", 12000, 2000000),
-                  t_part("T-every-counted-arm-concurrently", "arms", "C06", 5600, 560000)],
+                  t_part("T-every-counted-arm-concurrently", "arms", "C06", 5600, 560000),
+                  t_part("T-shared-site-across-threads", "sharedsite", "C06", 6000, 600000)],
     },
     "C07": {
         "level": "fault_enumeration",
